@@ -352,6 +352,34 @@ func (e *Engine) verifyFunc1(p *packages.Package, ct *Contract) (res *UnitResult
 	base := strings.Split(ct.Key, "$")[0]
 	_, topDecl := findFunc(p, base)
 	litKeysOf(topDecl, base, u.litKeys)
+	// variables of the enclosing function that hold exactly one function literal
+	if topDecl != nil && topDecl.Body != nil {
+		multi := map[types.Object]bool{}
+		ast.Inspect(topDecl.Body, func(n ast.Node) bool {
+			as, ok := n.(*ast.AssignStmt)
+			if !ok {
+				return true
+			}
+			for i, r := range as.Rhs {
+				lit, ok := ast.Unparen(r).(*ast.FuncLit)
+				if !ok || i >= len(as.Lhs) {
+					continue
+				}
+				if id, ok := as.Lhs[i].(*ast.Ident); ok {
+					if obj := p.TypesInfo.ObjectOf(id); obj != nil {
+						if _, dup := u.closures[obj]; dup {
+							multi[obj] = true
+						}
+						u.closures[obj] = lit
+					}
+				}
+			}
+			return true
+		})
+		for o := range multi {
+			delete(u.closures, o)
+		}
+	}
 
 	st := newState()
 	u.entry = st
@@ -507,10 +535,26 @@ func (u *Unit) checkExit(k int, ex Exit, pos token.Pos) {
 			env.names[u.sig.Recv().Name()] = v
 		}
 	}
+	env.oldNames = map[string]Val{}
 	for i := 0; i < u.sig.Params().Len(); i++ {
 		p := u.sig.Params().At(i)
 		if v, ok := u.entry.vars[p]; ok && p.Name() != "" && p.Name() != "_" {
-			env.names[p.Name()] = v
+			written := false
+			for _, w := range ct.Writes {
+				if w == p.Name() {
+					written = true
+				}
+			}
+			if written {
+				// out-parameter: the name denotes the final contents, old(name) the contents at entry
+				if cur, ok := st.vars[p]; ok {
+					env.names[p.Name()] = cur
+				}
+				env.oldNames[p.Name()] = v
+				env.names["old_"+p.Name()] = v
+			} else {
+				env.names[p.Name()] = v
+			}
 		}
 	}
 	for i, r := range u.results {
@@ -519,6 +563,21 @@ func (u *Unit) checkExit(k int, ex Exit, pos token.Pos) {
 		}
 	}
 	suffix := fmt.Sprintf("@r%d", k)
+	for _, w := range ct.Writes {
+		for i := 0; i < u.sig.Params().Len(); i++ {
+			p := u.sig.Params().At(i)
+			if p.Name() != w {
+				continue
+			}
+			cur, ok1 := st.vars[p]
+			ent, ok2 := u.entry.vars[p]
+			if ok1 && ok2 {
+				if _, isSlice := p.Type().Underlying().(*types.Slice); isSlice {
+					u.oblige("frame", "writes."+w+suffix, pos, st, sEq(app("slen_"+cur.So, cur.T), app("slen_"+ent.So, ent.T)), "out-parameter "+w+" keeps its length (it must still denote the caller's slice)")
+				}
+			}
+		}
+	}
 	for i, e := range ct.Ensures {
 		u.checkClause(env, e, "post", labelOr(e.Label, fmt.Sprint(i+1))+suffix, pos, st, false)
 	}
